@@ -176,7 +176,12 @@ impl Remover {
                     Some(current + (end_cursor - start_cursor).max(0) + 1),
                 ));
                 if start_cursor < end_cursor {
-                    acc.extend(child_markers[start_cursor..end_cursor].to_owned());
+                    // Pair indices of child markers are relative to `child_markers`;
+                    // rebase them onto `acc`.
+                    let offset = current + 1;
+                    acc.extend(child_markers[start_cursor..end_cursor].iter().map(
+                        |(range, pair)| (range.clone(), pair.map(|p| p + offset - start_cursor)),
+                    ));
                 }
                 acc.push((end_marker, Some(current)));
             } else {
